@@ -211,6 +211,27 @@ func init() {
 		"spaces":             func() any { return "   \t\n" },
 		"nbsp":               func() any { return "  " },
 		"bool-ptr":           func() any { return ptrTo(true) },
+		"long-list-65": func() any {
+			l := make([]any, 65)
+			for i := range l {
+				l[i] = i
+			}
+			return l
+		},
+		"long-strlist-300": func() any {
+			l := make([]string, 300)
+			for i := range l {
+				l[i] = "s"
+			}
+			return l
+		},
+		"long-maps-70": func() any {
+			l := make([]any, 70)
+			for i := range l {
+				l[i] = map[string]any{"name": i, "id": i}
+			}
+			return l
+		},
 		"nested-any": func() any {
 			return map[string]any{"name": map[string]any{"name": map[string]any{"name": []any{map[string]any{}}}}}
 		},
